@@ -1,5 +1,5 @@
 #!/usr/bin/env python3
-"""wsq_replay.py <tlc-output> <unit_wsq binary>: replay the BEHAVIOUR lines of a TLC -simulate run of WSQReplay
+"""wsq_replay.py <tlc-output> <unit_wsq binary> [initbase]: replay the BEHAVIOUR lines of a TLC -simulate run of WSQReplay
 step by step in the real queue code; prints 'behaviours=.. steps=.. failed=..' and the first divergences"""
 import re, json, subprocess, sys, tempfile, os
 pid = {'o': 0, 't1': 1, 't2': 2}
@@ -11,7 +11,7 @@ for l in open(sys.argv[1]):
 fd, path = tempfile.mkstemp(suffix='.txt'); os.close(fd)
 with open(path, 'w') as f:
     for b in behs:
-        f.write('BEGIN %d\n' % len(b))
+        f.write('BEGIN %d %d\n' % (len(b), int(sys.argv[3]) if len(sys.argv) > 3 else 1))
         for e in b:
             pt = e['ptr']
             f.write('%d %s %s %d %d %d %d %d %d %d %d\n' % (pid[e['p']], e['from'], e['to'], e['v'], e['top'], e['base'], pt['0'], pt['1'], pt['2'], pt['3'], e['lock']))
